@@ -407,17 +407,31 @@ pub struct VerifSlice {
     pub idx: usize,
     pub regex: String,
     pub mask_with_children: Vec<u32>,
+    /// token ids held by `trie_without_child[i]`, sorted
+    pub trie_without_child: Vec<Vec<u32>>,
+    /// token ids held by `trie_without_children`, sorted
+    pub trie_without_children: Vec<u32>,
+    /// token ids held by `trie_with_children`, sorted
+    pub trie_with_children: Vec<u32>,
     pub children: Vec<VerifSlice>,
 }
 
 #[cfg(feature = "llg_verif")]
 impl SlicedBiasComputer {
     pub fn verif_dump(&self) -> VerifSlice {
+        fn toks(t: &TokTrie) -> Vec<u32> {
+            let mut v: Vec<u32> = t.sorted_tokens().into_iter().map(|(id, _)| id).collect();
+            v.sort();
+            v
+        }
         fn rec(s: &TokenizerSlice) -> VerifSlice {
             VerifSlice {
                 idx: s.idx,
                 regex: s.regex.clone(),
                 mask_with_children: s.mask_with_children.to_list(),
+                trie_without_child: s.trie_without_child.iter().map(toks).collect(),
+                trie_without_children: toks(&s.trie_without_children),
+                trie_with_children: toks(&s.trie_with_children),
                 children: s.children.iter().map(rec).collect(),
             }
         }
